@@ -30,6 +30,53 @@ pub fn clamp_dec(digits: &[u8]) -> Option<u64> {
     Some(if v > u64::MAX as u128 { u64::MAX } else { v as u64 })
 }
 
+/// a transmitted decimal parameter: its exact value when it fits 64 bits
+#[derive(Clone, Copy, Debug)]
+pub struct Param {
+    pub exact: Option<u64>,
+}
+
+pub fn param(digits: &[u8]) -> Option<Param> {
+    if !digits.iter().all(|b| b.is_ascii_digit()) {
+        return None;
+    }
+    let sig: Vec<u8> = digits.iter().cloned().skip_while(|b| *b == b'0').collect();
+    if sig.len() > 20 {
+        return Some(Param { exact: None });
+    }
+    let mut v: u128 = 0;
+    for d in sig {
+        v = v * 10 + (d - b'0') as u128;
+    }
+    Some(Param { exact: if v > u64::MAX as u128 { None } else { Some(v as u64) } })
+}
+
+/// the maxima a field may be clamped at (C02 allows any clamp; the library documents `usize::MAX`)
+const CLAMPS: [u64; 3] = [65535, 4294967295, u64::MAX];
+
+/// a numeric field is the transmitted value, or that value clamped at the maximum of some field width — never
+/// a wrapped value
+pub fn plain_ok(got: u64, p: Param) -> bool {
+    p.exact == Some(got) || CLAMPS.iter().any(|c| got == *c && p.exact.map_or(true, |e| e > *c))
+}
+
+/// a 0-based coordinate decoded from a 1-based parameter: value minus one, or clamped; a zero parameter may be
+/// clamped to 0 (or the report may be unrecognised, in which case there is no such event) — never underflowed
+pub fn coord_ok(got: u64, p: Param) -> bool {
+    match p.exact {
+        Some(0) => got == 0,
+        Some(e) => got == e - 1 || CLAMPS.iter().any(|c| e > *c && (got == *c || got == *c - 1)),
+        None => CLAMPS.iter().any(|c| got == *c || got == *c - 1),
+    }
+}
+
+fn show_param(p: Param) -> String {
+    match p.exact {
+        Some(e) => e.to_string(),
+        None => "a value above 2^64".to_string(),
+    }
+}
+
 pub fn is_scalar(c: u32) -> bool {
     c < 0x110000 && !(0xD800..=0xDFFF).contains(&c)
 }
@@ -176,31 +223,58 @@ fn sgr_reference(params: &[u8]) -> Option<SgrRef> {
     let groups = split(params, b';');
     let mut i = 0;
     let plain = |g: &[u8]| -> Option<u64> { if g.is_empty() { None } else { clamp_dec(g) } };
+    // effect of an ordinary code on the colours
+    fn ordinary(st: &mut SgrRef, code: u64) {
+        match code {
+            0 => *st = SgrRef { fg: Expect::Cleared, bg: Expect::Cleared, ul: Expect::Cleared },
+            30..=37 | 90..=97 => st.fg = Expect::SomeAny,
+            40..=47 | 100..=107 => st.bg = Expect::SomeAny,
+            39 => st.fg = Expect::Unknown,
+            49 => st.bg = Expect::Unknown,
+            59 => st.ul = Expect::Unknown,
+            _ => {}
+        }
+    }
+    fn set(st: &mut SgrRef, code: u64, e: Expect) {
+        match code {
+            38 => st.fg = e,
+            48 => st.bg = e,
+            _ => st.ul = e,
+        }
+    }
     while i < groups.len() {
         let g = groups[i];
         i += 1;
         let subs = split(g, b':');
+        // the code of a group: an empty one counts as 0 (reset); not a number: not covered
+        let code = clamp_dec(subs[0])?;
         if subs.len() == 1 {
-            let code = if g.is_empty() { 0 } else { clamp_dec(g)? };
             match code {
-                0 => {
-                    st = SgrRef { fg: Expect::Cleared, bg: Expect::Cleared, ul: Expect::Cleared };
-                }
-                30..=37 | 90..=97 => st.fg = Expect::SomeAny,
-                40..=47 | 100..=107 => st.bg = Expect::SomeAny,
-                39 => st.fg = Expect::Unknown,
-                49 => st.bg = Expect::Unknown,
-                59 => st.ul = Expect::Unknown,
                 38 | 48 | 58 => {
-                    let mode = plain(groups.get(i)?)?;
-                    if groups.get(i)?.contains(&b':') {
+                    // semicolon form: the specification continues in the following groups; when the sequence
+                    // ends inside it, what the target becomes is not judged (and nothing follows)
+                    let Some(mode_g) = groups.get(i) else {
+                        set(&mut st, code, Expect::Unknown);
+                        return Some(st);
+                    };
+                    if mode_g.contains(&b':') {
                         return None;
                     }
+                    let mode = plain(mode_g)?;
                     let e = match mode {
                         2 => {
+                            if groups.len() < i + 4 {
+                                // the sequence ends inside the specification: judged only when no component was
+                                // sent at all (components of an abandoned specification may be read as parameters)
+                                if groups.len() != i + 1 {
+                                    return None;
+                                }
+                                set(&mut st, code, Expect::Unknown);
+                                return Some(st);
+                            }
                             let mut comps = Vec::new();
                             for k in 1..=3 {
-                                let c = groups.get(i + k)?;
+                                let c = groups[i + k];
                                 if c.contains(&b':') {
                                     return None;
                                 }
@@ -210,7 +284,10 @@ fn sgr_reference(params: &[u8]) -> Option<SgrRef> {
                             true_color(&comps)
                         }
                         5 => {
-                            let c = groups.get(i + 1)?;
+                            let Some(c) = groups.get(i + 1) else {
+                                set(&mut st, code, Expect::Unknown);
+                                return Some(st);
+                            };
                             if c.contains(&b':') {
                                 return None;
                             }
@@ -231,50 +308,32 @@ fn sgr_reference(params: &[u8]) -> Option<SgrRef> {
                             return None;
                         }
                         let mut r = SgrRef { fg: Expect::Unknown, bg: Expect::Unknown, ul: Expect::Unknown };
-                        match code {
-                            38 => r.fg = e,
-                            48 => r.bg = e,
-                            _ => r.ul = e,
-                        }
+                        set(&mut r, code, e);
                         return Some(r);
                     }
-                    match code {
-                        38 => st.fg = e,
-                        48 => st.bg = e,
-                        _ => st.ul = e,
-                    }
+                    set(&mut st, code, e);
                 }
-                _ => {}
+                other => ordinary(&mut st, other),
             }
         } else {
-            let code = plain(subs[0])?;
             match code {
                 38 | 48 | 58 => {
-                    let mode = plain(subs[1])?;
-                    let e = match (mode, subs.len()) {
-                        (2, 5) => true_color(&[plain(subs[2])?, plain(subs[3])?, plain(subs[4])?]),
-                        (2, 6) => {
-                            if !subs[2].is_empty() {
-                                plain(subs[2])?;
-                            }
-                            true_color(&[plain(subs[3])?, plain(subs[4])?, plain(subs[5])?])
-                        }
-                        (5, 3) => indexed(plain(subs[2])?),
-                        _ => return None,
+                    // colon form: everything is inside the group, nothing leaks into the following ones;
+                    // shapes other than 2:r:g:b, 2:cs:r:g:b and 5:n leave the target unjudged
+                    let nums: Option<Vec<u64>> = subs[1..].iter().map(|x| clamp_dec(x)).collect();
+                    let e = match nums {
+                        None => Expect::Unknown,
+                        Some(n) => match (n.first().copied(), subs.len()) {
+                            (Some(2), 5) if subs[2..].iter().all(|x| !x.is_empty()) => true_color(&n[1..4]),
+                            (Some(2), 6) if subs[3..].iter().all(|x| !x.is_empty()) => true_color(&n[2..5]),
+                            (Some(5), 3) if !subs[2].is_empty() => indexed(n[1]),
+                            _ => Expect::Unknown,
+                        },
                     };
-                    match code {
-                        38 => st.fg = e,
-                        48 => st.bg = e,
-                        _ => st.ul = e,
-                    }
+                    set(&mut st, code, e);
                 }
-                4 => {
-                    if subs.len() != 2 {
-                        return None;
-                    }
-                    plain(subs[1])?;
-                }
-                _ => return None,
+                // arguments of any other code do not select colours
+                other => ordinary(&mut st, other),
             }
         }
     }
@@ -307,12 +366,12 @@ fn check_face_get(out: &mut Vec<Fail>, params: &[u8], f: &Face) -> bool {
 
 // ---------------------------------------------------------------- events
 
-fn nums_strict(params: &[u8], n: usize) -> Option<Vec<u64>> {
+fn nums_strict(params: &[u8], n: usize) -> Option<Vec<Param>> {
     let gs = split(params, b';');
     if gs.len() != n || gs.iter().any(|g| g.is_empty()) {
         return None;
     }
-    gs.iter().map(|g| clamp_dec(g)).collect()
+    gs.iter().map(|g| param(g)).collect()
 }
 
 fn unexplained(out: &mut Vec<Fail>, what: &str, seg: &[u8], got: &str) {
@@ -440,7 +499,7 @@ pub fn check_event(out: &mut Vec<Fail>, seg: &[u8], ev: &TerminalEvent) -> &'sta
                 fail(out, "raw event without bytes", "at least one byte", "empty");
             }
             if bytes.as_slice() != seg {
-                fail(out, "raw event bytes differ from the bytes of the stream at its position", verif_harness::out::hex(seg), verif_harness::out::hex(bytes));
+                fail(out, "obs:raw event bytes differ from the bytes of the stream at its position", verif_harness::out::hex(seg), verif_harness::out::hex(bytes));
             }
             "raw"
         }
@@ -466,17 +525,18 @@ pub fn check_event(out: &mut Vec<Fail>, seg: &[u8], ev: &TerminalEvent) -> &'sta
             match csi(seg) {
                 Some((Some(b'<'), params, _, fin)) if fin == b'm' || fin == b'M' => match nums_strict(params, 3) {
                     Some(v) => {
-                        if v[1] == 0 || v[2] == 0 || m.pos.col as u64 != v[1] - 1 || m.pos.row as u64 != v[2] - 1 {
-                            fail(out, "mouse position is not the transmitted 1-based position minus one (wrapped, underflowed or not clamped)",
-                                format!("col {} row {} (1-based, clamped at usize::MAX)", v[1], v[2]), format!("col {} row {}", m.pos.col, m.pos.row));
+                        if !coord_ok(m.pos.col as u64, v[1]) || !coord_ok(m.pos.row as u64, v[2]) {
+                            fail(out, "mouse position is neither the transmitted 1-based position minus one nor a clamped value (wrapped or underflowed)",
+                                format!("col {} row {} (1-based)", show_param(v[1]), show_param(v[2])), format!("col {} row {}", m.pos.col, m.pos.row));
                         }
-                        let e = v[0];
-                        let mut want = (e >> 2) & 7;
-                        if fin == b'M' {
-                            want |= 256;
-                        }
-                        if mod_bits(m.mode) != want {
-                            fail(out, "mouse modifiers do not follow from the transmitted button code", format!("bits {want:#b}"), format!("bits {:#b}", mod_bits(m.mode)));
+                        if let Some(e) = v[0].exact {
+                            let mut want = (e >> 2) & 7;
+                            if fin == b'M' {
+                                want |= 256;
+                            }
+                            if mod_bits(m.mode) != want {
+                                fail(out, "mouse modifiers do not follow from the transmitted button code", format!("bits {want:#b}"), format!("bits {:#b}", mod_bits(m.mode)));
+                            }
                         }
                     }
                     None => unexplained(out, "mouse report", seg, &shown()),
@@ -489,9 +549,9 @@ pub fn check_event(out: &mut Vec<Fail>, seg: &[u8], ev: &TerminalEvent) -> &'sta
             match csi(seg) {
                 Some((None, params, _, b'R')) => match nums_strict(params, 2) {
                     Some(v) => {
-                        if v[0] == 0 || v[1] == 0 || p.row as u64 != v[0] - 1 || p.col as u64 != v[1] - 1 {
-                            fail(out, "cursor position is not the transmitted 1-based position minus one (wrapped, underflowed or not clamped)",
-                                format!("row {} col {} (1-based, clamped at usize::MAX)", v[0], v[1]), format!("row {} col {}", p.row, p.col));
+                        if !coord_ok(p.row as u64, v[0]) || !coord_ok(p.col as u64, v[1]) {
+                            fail(out, "cursor position is neither the transmitted 1-based position minus one nor a clamped value (wrapped or underflowed)",
+                                format!("row {} col {} (1-based)", show_param(v[0]), show_param(v[1])), format!("row {} col {}", p.row, p.col));
                         }
                     }
                     None => unexplained(out, "cursor position report", seg, &shown()),
@@ -512,8 +572,9 @@ pub fn check_event(out: &mut Vec<Fail>, seg: &[u8], ev: &TerminalEvent) -> &'sta
                         ok = true;
                         let got = [sz.cells.height as u64, sz.cells.width as u64, sz.pixels.height as u64, sz.pixels.width as u64];
                         let want = [va[1], va[2], vb[1], vb[2]];
-                        if va[0] != 8 || vb[0] != 4 || got != want {
-                            fail(out, "terminal size fields differ from the transmitted numbers (clamped at usize::MAX)", format!("{want:?}"), format!("{got:?}"));
+                        if va[0].exact != Some(8) || vb[0].exact != Some(4) || got.iter().zip(want.iter()).any(|(g, w)| !plain_ok(*g, *w)) {
+                            fail(out, "terminal size fields are neither the transmitted numbers nor clamped values (wrapped)",
+                                format!("{:?}", want.iter().map(|w| show_param(*w)).collect::<Vec<_>>()), format!("{got:?}"));
                         }
                     }
                 }
@@ -527,8 +588,8 @@ pub fn check_event(out: &mut Vec<Fail>, seg: &[u8], ev: &TerminalEvent) -> &'sta
             match csi(seg) {
                 Some((Some(b'?'), params, b"$", b'y')) => match nums_strict(params, 2) {
                     Some(v) => {
-                        if *mode as u64 != v[0] || *status as u64 != v[1] {
-                            fail(out, "DEC mode report fields differ from the transmitted numbers", format!("mode {} status {}", v[0], v[1]), format!("mode {} status {}", *mode as u64, *status as u64));
+                        if Some(*mode as u64) != v[0].exact || Some(*status as u64) != v[1].exact {
+                            fail(out, "DEC mode report fields differ from the transmitted numbers", format!("mode {} status {}", show_param(v[0]), show_param(v[1])), format!("mode {} status {}", *mode as u64, *status as u64));
                         }
                     }
                     None => unexplained(out, "DEC mode report", seg, &shown()),
@@ -539,10 +600,10 @@ pub fn check_event(out: &mut Vec<Fail>, seg: &[u8], ev: &TerminalEvent) -> &'sta
         }
         TerminalEvent::KeyboardLevel(level) => {
             match csi(seg) {
-                Some((Some(b'?'), params, _, b'u')) => match clamp_dec(params) {
+                Some((Some(b'?'), params, _, b'u')) => match param(params) {
                     Some(v) if !params.is_empty() => {
-                        if *level as u64 != v {
-                            fail(out, "keyboard level differs from the transmitted number (clamped at usize::MAX)", v, level);
+                        if !plain_ok(*level as u64, v) {
+                            fail(out, "keyboard level is neither the transmitted number nor a clamped value (wrapped)", show_param(v), level);
                         }
                     }
                     _ => unexplained(out, "keyboard level report", seg, &shown()),
@@ -554,13 +615,16 @@ pub fn check_event(out: &mut Vec<Fail>, seg: &[u8], ev: &TerminalEvent) -> &'sta
         TerminalEvent::DeviceAttrs(attrs) => {
             match csi(seg) {
                 Some((Some(b'?'), params, _, b'c')) => {
-                    let vals: Option<Vec<u64>> = split(params, b';').iter().filter(|g| !g.is_empty()).map(|g| clamp_dec(g)).collect();
+                    let vals: Option<Vec<Param>> = split(params, b';').iter().filter(|g| !g.is_empty()).map(|g| param(g)).collect();
                     match vals {
                         Some(vals) => {
-                            let want: std::collections::BTreeSet<u64> = vals.into_iter().filter(|v| *v > 0).collect();
-                            let got: std::collections::BTreeSet<u64> = attrs.iter().map(|a| *a as u64).collect();
-                            if want != got {
-                                fail(out, "device attributes differ from the transmitted numbers (clamped at usize::MAX)", format!("{want:?}"), format!("{got:?}"));
+                            let vals: Vec<Param> = vals.into_iter().filter(|v| v.exact != Some(0)).collect();
+                            let got: Vec<u64> = attrs.iter().map(|a| *a as u64).collect();
+                            let explained = got.iter().all(|g| vals.iter().any(|v| plain_ok(*g, *v)));
+                            let complete = vals.iter().all(|v| got.iter().any(|g| plain_ok(*g, *v)));
+                            if !explained || !complete {
+                                fail(out, "device attributes are neither the transmitted numbers nor clamped values (wrapped)",
+                                    format!("{:?}", vals.iter().map(|v| show_param(*v)).collect::<Vec<_>>()), format!("{got:?}"));
                             }
                         }
                         None => unexplained(out, "device attributes", seg, &shown()),
@@ -575,14 +639,14 @@ pub fn check_event(out: &mut Vec<Fail>, seg: &[u8], ev: &TerminalEvent) -> &'sta
             if seg.len() >= 5 && seg.starts_with(b"\x1b_G") && seg.ends_with(b"\x1b\\") {
                 let body = &seg[3..seg.len() - 2];
                 let keys = body.split(|b| *b == b';').next().unwrap_or(b"");
-                let mut want_id = 0u64;
-                let mut want_p: Option<u64> = None;
+                let mut want_id = Param { exact: Some(0) };
+                let mut want_p: Option<Param> = None;
                 let mut ok = true;
                 for kv in split(keys, b',') {
                     if let Some(eq) = kv.iter().position(|b| *b == b'=') {
                         let (k, v) = (&kv[..eq], &kv[eq + 1..]);
                         if k == b"i" || k == b"p" {
-                            match clamp_dec(v) {
+                            match param(v) {
                                 Some(n) if k == b"i" => want_id = n,
                                 Some(n) => want_p = Some(n),
                                 None => ok = false,
@@ -592,8 +656,16 @@ pub fn check_event(out: &mut Vec<Fail>, seg: &[u8], ev: &TerminalEvent) -> &'sta
                 }
                 if !ok {
                     unexplained(out, "kitty image response with numeric id", seg, &shown());
-                } else if *id != want_id || *placement != want_p {
-                    fail(out, "kitty image id or placement differs from the transmitted numbers (clamped at usize::MAX)", format!("id {want_id} placement {want_p:?}"), format!("id {id} placement {placement:?}"));
+                } else {
+                    let p_ok = match (placement, want_p) {
+                        (None, None) => true,
+                        (Some(g), Some(w)) => plain_ok(*g, w),
+                        _ => false,
+                    };
+                    if !plain_ok(*id, want_id) || !p_ok {
+                        fail(out, "kitty image id or placement is neither the transmitted number nor a clamped value (wrapped)",
+                            format!("id {} placement {:?}", show_param(want_id), want_p.map(show_param)), format!("id {id} placement {placement:?}"));
+                    }
                 }
             } else {
                 unexplained(out, "kitty image response", seg, &shown());
@@ -630,7 +702,7 @@ pub fn check_event(out: &mut Vec<Fail>, seg: &[u8], ev: &TerminalEvent) -> &'sta
                     }
                 }
                 if ok && &want != map {
-                    fail(out, "termcap entries differ from the hex text transmitted", format!("{want:?}"), format!("{map:?}"));
+                    fail(out, "obs:termcap entries differ from the hex text transmitted", format!("{want:?}"), format!("{map:?}"));
                 }
             } else {
                 unexplained(out, "termcap response", seg, &shown());
@@ -642,10 +714,10 @@ pub fn check_event(out: &mut Vec<Fail>, seg: &[u8], ev: &TerminalEvent) -> &'sta
             let args = split(body, b';');
             let idx = match name {
                 TerminalColor::Palette(n) => {
-                    match args.get(1).and_then(|a| clamp_dec(a)) {
+                    match args.get(1).and_then(|a| param(a)) {
                         Some(v) if args[0] == b"4" => {
-                            if *n as u64 != v {
-                                fail(out, "palette index differs from the transmitted number (clamped at usize::MAX)", v, n);
+                            if !plain_ok(*n as u64, v) {
+                                fail(out, "palette index is neither the transmitted number nor a clamped value (wrapped)", show_param(v), n);
                             }
                         }
                         _ => unexplained(out, "palette colour report", seg, &shown()),
@@ -658,7 +730,7 @@ pub fn check_event(out: &mut Vec<Fail>, seg: &[u8], ev: &TerminalEvent) -> &'sta
                 if let Some((r, g, b)) = x_rgb(text) {
                     let (gr, gg, gb, _) = rgb_of(*color);
                     if (gr, gg, gb) != (r, g, b) {
-                        fail(out, "colour components differ from the rgb: specification transmitted", format!("({r},{g},{b})"), format!("({gr},{gg},{gb})"));
+                        fail(out, "obs:colour components differ from the rgb: specification transmitted", format!("({r},{g},{b})"), format!("({gr},{gg},{gb})"));
                     }
                 }
             }
@@ -686,7 +758,7 @@ pub fn check_event(out: &mut Vec<Fail>, seg: &[u8], ev: &TerminalEvent) -> &'sta
         TerminalEvent::Paste(text) => {
             if seg.len() >= 12 && seg.starts_with(b"\x1b[200~") && seg.ends_with(b"\x1b[201~") {
                 if text.as_bytes() != &seg[6..seg.len() - 6] {
-                    fail(out, "pasted text differs from the bytes between the paste brackets", verif_harness::out::hex(&seg[6..seg.len() - 6]), verif_harness::out::hex(text.as_bytes()));
+                    fail(out, "obs:pasted text differs from the bytes between the paste brackets", verif_harness::out::hex(&seg[6..seg.len() - 6]), verif_harness::out::hex(text.as_bytes()));
                 }
             } else {
                 unexplained(out, "bracketed paste", seg, &shown());
@@ -705,7 +777,7 @@ pub fn check_command(out: &mut Vec<Fail>, seg: &[u8], cmd: &TerminalCommand) -> 
                 fail(out, "raw event without bytes", "at least one byte", "empty");
             }
             if bytes.as_slice() != seg {
-                fail(out, "raw event bytes differ from the bytes of the stream at its position", verif_harness::out::hex(seg), verif_harness::out::hex(bytes));
+                fail(out, "obs:raw event bytes differ from the bytes of the stream at its position", verif_harness::out::hex(seg), verif_harness::out::hex(bytes));
             }
             "raw"
         }
